@@ -80,12 +80,24 @@ def run_engine(pkg, entries, sched="manual", cuts=None, workers=14, solver="z3",
         cmd += ["-cut", "%s=%s" % (k, v)]
     cmd += extra or []
     t0 = time.time()
+    # own process group: on a timeout the engine and every solver process it started are killed together
+    proc = subprocess.Popen(cmd, env=GOENV, stdout=subprocess.PIPE, stderr=subprocess.PIPE, text=True, preexec_fn=_limit_memory, start_new_session=True)
     try:
-        r = subprocess.run(cmd, env=GOENV, capture_output=True, text=True, timeout=deadline + 600, preexec_fn=_limit_memory)
+        so, se = proc.communicate(timeout=deadline + 600)
     except subprocess.TimeoutExpired:
+        try:
+            os.killpg(proc.pid, 9)
+        except OSError:
+            pass
+        proc.wait()
         shutil.rmtree(tmp, ignore_errors=True)
         return None, {"error": "engine run killed after %d s (deadline %d s + 600 s grace): %s" % (deadline + 600, deadline, " ".join(cmd)[:600]),
                       "cmd": " ".join(cmd), "wall_s": time.time() - t0}
+
+    class _R:
+        pass
+    r = _R()
+    r.returncode, r.stdout, r.stderr = proc.returncode, so, se
     wall = time.time() - t0
     try:
         if r.returncode != 0 or not os.path.exists(out):
